@@ -122,7 +122,11 @@ ROT = {"Context": "Action", "Action": "Outcome", "Outcome": "Context", "Conjunct
 def variant(doc):
     """a document of the same shape and the same ids but different content everywhere (tags, headers, values, texts,
     arguments, keyword types) - what a second feature file parsed by a fresh parser looks like to a reused compiler"""
-    d = copy.deepcopy(doc)
+    return mutate_in_place(copy.deepcopy(doc))
+
+
+def mutate_in_place(d):
+    """the same edits applied to the very objects of `d` (data-driven templating: edit the AST, compile again)"""
     f = d.get("feature")
     if not f:
         return d
@@ -203,6 +207,36 @@ def check_reuse(case, stats, proj, what):
     # and once more the first document: nothing of the second may stick either
     third = c.compile(copy.deepcopy(doc))
     compare(case, third, first, proj, what + " (first document compiled again by the same compiler)")
+    # results handed out are the caller's: appending to them must not show up anywhere later
+    for lst in (first, second, third):
+        lst.append({"sentinel": "appended by the caller"})
+    empty = {"comments": [], "uri": "e"}
+    e1 = c.compile(dict(empty))
+    e1.append({"sentinel": 1})
+    e2 = gh.Compiler().compile({"feature": dict(doc["feature"], children=[]), "comments": [], "uri": "e"} if doc.get("feature") else dict(empty))
+    e3 = c.compile(dict(empty))
+    if e2 != [] or e3 != []:
+        raise Violation(case, "%s: compiling a document without scenarios returns %r / %r after the caller appended to an earlier (empty) result" % (what, e2, e3))
+    # an aborted compile (a malformed document makes it raise part-way) must leave nothing behind either
+    if doc.get("feature") and doc["feature"]["children"]:
+        broken = json.loads(json.dumps(doc))
+        broken.pop("uri", None)
+        try:
+            c.compile(broken)
+        except Exception:
+            pass
+        fourth = c.compile(copy.deepcopy(other))
+        compare(case, fourth, fresh, proj, what + " (after a compile that raised on a malformed document)")
+        fifth = gh.Compiler(gh.IdGenerator()).compile(copy.deepcopy(other))
+        compare(case, fifth, fresh, proj, what + " (a brand-new compiler after another compiler raised on a malformed document)")
+    # the caller edits the document in place and compiles the same objects again with the same compiler
+    d2 = json.loads(json.dumps(doc))
+    c2 = gh.Compiler(gh.IdGenerator())
+    c2.compile(d2)
+    mutate_in_place(d2)
+    again = c2.compile(d2)
+    want = gh.Compiler(gh.IdGenerator()).compile(json.loads(json.dumps(d2)))
+    compare(case, again, want, proj, what + " (document edited in place and compiled again by the same compiler)")
 
 
 def unit_reuse(a, strat, proj, what, salt):
